@@ -10,7 +10,7 @@ parameterisation (Jacobi's formula and the derivative of the matrix inverse alon
 `gradParts_correct` says the driver's exact rationals are the three pieces of that formula, `mll_gradient` lifts
 it through the `(log N + priors + added)/num_data` assembly.  What stays correspondence-only: that torch autograd
 applied to the kernel / mean / prior code returns `∂K`, `∂μ` and the prior derivatives (C05 / C19 prove the
-hand-written kernel backward passes), and the gradients of the leave-one-out objective.
+hand-written kernel backward passes).  `loo_gradient` / `looGrad_correct` do the same for the leave-one-out objective.
 -/
 import GPVerif.Model.MLL
 import GPVerif.Gen.MLLAssembly
@@ -383,6 +383,44 @@ theorem logNormal_gradient_targets {n : Nat} (K : Matrix (Fin n) (Fin n) ℝ) (h
       (-(h ⬝ᵥ (K⁻¹ *ᵥ r))) 0 :=
   MLLGrad.hasDerivAt_logNormal_resid K hsymm r h c
 
+/-- The driver's LOO gradient is the expression of `MLLGrad.hasDerivAt_loo_curve` at `A⁻¹`. -/
+theorem looGrad_correct [Field α] [DecidableEq α] {n : Nat} (half : α) (A D : DMat n n α) (r dμ : Fin n → α) (g : α)
+    (h : looGrad? half A D r dμ = some g) :
+    g = ∑ i,
+      (half * (-((A.toMatrix⁻¹ * D.toMatrix * A.toMatrix⁻¹) i i)) / A.toMatrix⁻¹ i i
+        - (A.toMatrix⁻¹ *ᵥ r) i * (-(((A.toMatrix⁻¹ * D.toMatrix * A.toMatrix⁻¹) *ᵥ r) i) - (A.toMatrix⁻¹ *ᵥ dμ) i)
+            / A.toMatrix⁻¹ i i
+        + half * (A.toMatrix⁻¹ *ᵥ r) i ^ 2 * (-((A.toMatrix⁻¹ * D.toMatrix * A.toMatrix⁻¹) i i)) / A.toMatrix⁻¹ i i ^ 2) := by
+  simp only [looGrad?, Option.map_eq_some_iff] at h
+  obtain ⟨X, hX, rfl⟩ := h
+  rw [← DMat.inv?_correct hX]
+  simp only [DMat.toMatrix_mul]
+
+/-- the code's LOO summand `−½ log σ² − ½ (y − μ)²/σ²` with `σ² = 1/a`, `μ = y − b σ²` is `½ log a − ½ b²/a`. -/
+theorem looTerm_ab_form (y a b : ℝ) (ha : 0 < a) :
+    looTerm (1 / 2 : ℝ) (Real.log (1 / a)) (looQuad y (y - b * (1 / a)) (1 / a))
+      = (1 / 2) * Real.log a - (1 / 2) * b ^ 2 / a := by
+  have hne : a ≠ 0 := ha.ne'
+  simp only [looTerm, looQuad, one_div, Real.log_inv]
+  field_simp
+  ring
+
+/-- **Gradient of the leave-one-out objective** (rational part `Σᵢ ½ log aᵢ − ½ bᵢ²/aᵢ`, `a = diag A⁻¹`, `b = A⁻¹(y − μ)`)
+along any entrywise-differentiable curve of covariances and means — the expression `looGrad?` evaluates. -/
+theorem loo_gradient {n : Nat} (A : ℝ → Matrix (Fin n) (Fin n) ℝ) (D : Matrix (Fin n) (Fin n) ℝ)
+    (μ : ℝ → Fin n → ℝ) (dμ y : Fin n → ℝ)
+    (hA : ∀ i j, HasDerivAt (fun t => A t i j) (D i j) 0) (hμ : ∀ i, HasDerivAt (fun t => μ t i) (dμ i) 0)
+    (hK : IsUnit (A 0).det) (hpos : ∀ i, 0 < (A 0)⁻¹ i i) :
+    HasDerivAt
+      (fun t => ∑ i, ((1 / 2) * Real.log ((A t)⁻¹ i i)
+        - (1 / 2) * (((A t)⁻¹ *ᵥ (y - μ t)) i) ^ 2 / (A t)⁻¹ i i))
+      (∑ i,
+        ((1 / 2) * (-(((A 0)⁻¹ * D * (A 0)⁻¹) i i)) / (A 0)⁻¹ i i
+          - ((A 0)⁻¹ *ᵥ (y - μ 0)) i * (-((((A 0)⁻¹ * D * (A 0)⁻¹) *ᵥ (y - μ 0)) i) - ((A 0)⁻¹ *ᵥ dμ) i)
+              / (A 0)⁻¹ i i
+          + (1 / 2) * ((A 0)⁻¹ *ᵥ (y - μ 0)) i ^ 2 * (-(((A 0)⁻¹ * D * (A 0)⁻¹) i i)) / (A 0)⁻¹ i i ^ 2)) 0 :=
+  MLLGrad.hasDerivAt_loo_curve A D μ dμ y hA hμ hK hpos
+
 end gradients
 
 /-! ### non-vacuity -/
@@ -400,6 +438,9 @@ example : ∃ (A : ℝ → Matrix (Fin 2) (Fin 2) ℝ) (D : Matrix (Fin 2) (Fin 
   · simp
   · simp
   · simp
+
+example : looGrad? (α := ℚ) (1 / 2) (DMat.ofMatrix !![2, 1/2; 1/2, 3]) (DMat.ofMatrix !![1, 0; 0, 1]) ![1, -1] ![0, 0]
+    = some (-2815 / 38088) := by decide +kernel
 
 -- the driver's gradient pieces on a 2×2 instance (A = [[2, ½], [½, 3]], D = 1, r = (1, −1), dμ = (0, 0))
 example : gradParts? (α := ℚ) (DMat.ofMatrix !![2, 1/2; 1/2, 3]) (DMat.ofMatrix !![1, 0; 0, 1]) ![1, -1] ![0, 0]
